@@ -24,6 +24,8 @@ func (check) ID() string { return "C08" }
 
 func (check) HangIsViolation() bool { return true }
 
+func (check) StallSeconds() int { return 20 }
+
 var enumNames = []string{"a", "b", "c"}
 
 // enumExprs: every expression with at most 2 references over the 3 names.
@@ -42,9 +44,9 @@ func enumExprs() []*model.Ex {
 
 var exprs = enumExprs()
 
-const enumChunk = 13 // 13*13*13 graphs, 13 per case
+const enumChunk = 1 // 13*13*13 graphs, one per case
 
-func enumCases() int { return len(exprs) * len(exprs) }
+func enumCases() int { return len(exprs) * len(exprs) * len(exprs) / enumChunk }
 
 func (check) Cases(tier string) int {
 	if tier == "thorough" {
@@ -56,14 +58,14 @@ func (check) Cases(tier string) int {
 func (check) Exhaustive(string) bool { return false }
 
 func (check) Rule() string {
-	return "(1) exhaustively all reference graphs over 3 string settings with at most 2 references each (13^3 graphs); (2) random graphs over up to 8 settings (strings a..f, object o with members o.x, o.y) with references nested in defaults, alternatives, error operators and reference names, repeated uses, diamonds, self references, references from object members to ancestors and to the object itself, exact single references to the object; with 0 or 1 resolver. Every setting is read through String, Unpack (interface{} and string), Has, CountField, Child (object-valued), and the whole config through Unpack, FlattenedKeys and diff.CompareConfigs. A hook counts reference resolutions per read (budget 10^6, the read is aborted by the monitor beyond it); stack overflows kill the worker and are attributed to the journalled case. Outcomes are compared with the stack-based model evaluator by class: no re-entry -> exact value/failure; unabsorbed re-entry -> cyclic reference error; absorbed re-entry -> value only if no setting is evaluated twice. Non-trivial = the graph has at least one edge; distinct = distinct graph."
+	return "(1) exhaustively all reference graphs over 3 string settings with at most 2 references each (13^3 graphs); (2) random graphs over up to 8 settings (strings a..f, object o with members o.x, o.y) with references nested in defaults, alternatives, error operators and reference names, repeated uses, diamonds, self references, references from object members to ancestors and to the object itself, exact single references to the object; with 0 or 1 resolver. Every setting is read through String, Unpack (interface{} and string), Has, CountField, Child (object-valued), and the whole config through Unpack, FlattenedKeys and diff.CompareConfigs. A hook counts reference resolutions per read (budget 2*10^4, the read is aborted by the monitor beyond it); stack overflows kill the worker and are attributed to the journalled case. Outcomes are compared with the stack-based model evaluator by class: no re-entry -> exact value/failure; unabsorbed re-entry -> cyclic reference error; absorbed re-entry -> value only if no setting is evaluated twice. Non-trivial = the graph has at least one edge; distinct = distinct graph."
 }
 
 func (check) Assumptions() []string {
 	return []string{
 		"re-entry means: the referenced name is on the evaluation stack of the current read (reading setting a is not yet a reference to a)",
 		"not demanded: which member of a cycle is named; the value of reads where a cycle is absorbed and a setting is evaluated more than once; which keys FlattenedKeys lists for settings holding references (C15 excludes references) - for FlattenedKeys/CompareConfigs only termination and, for reference-free parts, nothing else",
-		"step budget 10^6 resolutions per read for graphs of <= 8 settings with <= 3 references per string",
+		"step budget 2*10^4 resolutions per read for graphs of <= 8 settings with <= 3 references per string",
 	}
 }
 
@@ -124,7 +126,7 @@ func hasEdges(w *model.World) bool {
 
 type budgetExceeded struct{}
 
-const budget = 1000000
+const budget = 20000
 
 func (check) Run(seed int64, tier string, idx int, verbose bool) harness.Result {
 	res := harness.NewR(idx)
@@ -179,7 +181,11 @@ func runWorld(res *harness.R, w *model.World, r *rand.Rand, verbose, sample bool
 	defer ucfg.VerifSetHook(nil)
 
 	// guarded runs one read under the step budget
+	aborted := false
 	guarded := func(what string, f func()) bool {
+		if aborted {
+			return false // a read of this graph already blew the budget
+		}
 		steps = 0
 		ok := true
 		func() {
@@ -187,6 +193,7 @@ func runWorld(res *harness.R, w *model.World, r *rand.Rand, verbose, sample bool
 				if rec := recover(); rec != nil {
 					ok = false
 					if _, isBudget := rec.(budgetExceeded); isBudget {
+						aborted = true
 						res.Violate("step-budget-exceeded", "%s performed more than %d reference resolutions; %s", what, budget, desc)
 						return
 					}
@@ -209,6 +216,9 @@ func runWorld(res *harness.R, w *model.World, r *rand.Rand, verbose, sample bool
 	}
 	sort.Strings(keys)
 	for _, k := range keys {
+		if res.Events["violations_raw"] > 0 {
+			return // one witness per graph is enough (and keeps a non-terminating tree cheap)
+		}
 		s := w.Root[k]
 		// deep: the read unpacks what it finds (objects member by member);
 		// shallow: the read only looks at the setting itself (String, Has,
@@ -314,6 +324,46 @@ func runWorld(res *harness.R, w *model.World, r *rand.Rand, verbose, sample bool
 		res.SetAdd("entry_point", "Unpack(whole)")
 		if !anyReentry && !anyErr && uerr != nil {
 			res.Violate("acyclic-read-fails", "Unpack of the whole config failed with %v although no read re-enters a reference and every setting resolves; %s", uerr, desc)
+		}
+	}
+	// the whole config into one struct with a string field per top-level
+	// setting: several fields may use the same variable
+	if !anyReentry && !anyErr {
+		var fields []reflect.StructField
+		var want []string
+		for _, k := range keys {
+			if strings.Contains(k, ".") {
+				continue
+			}
+			ev := model.NewEvaluator(w)
+			r := ev.EvalSetting(k, nil, false)
+			if r.IsErr || r.Container {
+				continue
+			}
+			fields = append(fields, reflect.StructField{Name: "F" + strings.ToUpper(k), Type: reflect.TypeOf(""), Tag: reflect.StructTag(fmt.Sprintf(`config:"%s"`, k))})
+			want = append(want, r.S)
+		}
+		if len(fields) >= 2 {
+			p := reflect.New(reflect.StructOf(fields))
+			var serr error
+			if guarded("Unpack(struct of strings)", func() { serr = b.C.Unpack(p.Interface(), b.Opts...) }) {
+				res.SetAdd("entry_point", "Unpack(struct of strings)")
+				if serr != nil {
+					sig := "acyclic-read-fails"
+					if vx.IsCyclicErr(serr) {
+						sig = "repeated-use-reported-as-cycle"
+					}
+					res.Violate(sig, "Unpack into a struct with one string field per setting failed with %q although every setting resolves without re-entry; %s", serr, desc)
+				} else {
+					for i := range fields {
+						got := p.Elem().Field(i).String()
+						if got != want[i] && model.CanonIfc(vx.ExpectText(got)) != model.CanonIfc(vx.ExpectText(want[i])) {
+							res.Violate("wrong-substitution", "struct field %s = %q, model %q; %s", fields[i].Tag, got, want[i], desc)
+							break
+						}
+					}
+				}
+			}
 		}
 	}
 	guarded("FlattenedKeys", func() { b.C.FlattenedKeys(b.Opts...) })
